@@ -100,7 +100,13 @@ static void pgen_key(phist *h, vh_rng *r, unsigned g)
     if (!vh_below(r, 5)) {      /* a key this object has had before (same bytes; length, rounds and mode drawn afresh): "already loaded" shortcuts must still honour everything that changed */
         int k, cand[16], nc = 0;
         for (k = 0; k < h->n - 1 && nc < 16; ++k) if (h->ops[k].kind == P_SET_KEY && !(h->ops[k].flags & F_NULL_PTR) && h->ops[k].dlen >= c->bb && !h->ops[k].injected) cand[nc++] = k;
-        if (nc) { const cop *q = &h->ops[cand[vh_below(r, (uint32_t)nc)]]; unsigned n = q->dlen < o->len ? q->dlen : o->len; if (vh_below(r, 2)) o->len = q->len <= c->key_max ? q->len : o->len; n = q->dlen < o->len ? q->dlen : o->len; memcpy(buf, h->pool + q->doff, n); o->cls = "set_key(a key used before)"; }
+        if (nc) { const cop *q = &h->ops[cand[vh_below(r, (uint32_t)nc)]]; unsigned n = q->dlen < o->len ? q->dlen : o->len; if (vh_below(r, 2)) o->len = q->len <= c->key_max ? q->len : o->len; n = q->dlen < o->len ? q->dlen : o->len; memcpy(buf, h->pool + q->doff, n); o->cls = "set_key(a key used before)";
+                  if (c->id != CIPH_MANTIS && vh_below(r, 2)) {      /* the earlier key extended / cut by zero bytes across a primary size: a different variant whose zero-padded bytes are the same */
+                      unsigned m = q->dlen; while (m > c->bb && h->pool[q->doff + m - 1] == 0) --m;      /* significant bytes of the earlier key */
+                      o->len = c->bb * (1 + vh_below(r, 3)); if (vh_below(r, 3) == 0 && o->len < c->key_max) o->len += 1 + vh_below(r, c->bb - 1);
+                      if (o->len < m) o->len = (m + c->bb - 1) / c->bb * c->bb;
+                      if (o->len > c->key_max) o->len = c->key_max;
+                      memset(buf, 0, sizeof(buf)); memcpy(buf, h->pool + q->doff, m < o->len ? m : o->len); o->cls = "set_key(an earlier key zero-extended or cut to another size)"; } }
     }
     o->doff = (uint32_t)h->pool_n; memcpy(h->pool + h->pool_n, buf, o->len); h->pool_n += o->len; o->dlen = o->len;
     pplace(o, r, g);
